@@ -33,11 +33,32 @@ def load_mutants(prop: Optional[str] = None) -> List[dict]:
                     out.append(m)
     finally:
         sys.path.remove(str(d))
+    # independently seeded changes kept under seeded/<id>/ (patch.diff + meta.json): each must stay reported under its own property
+    sd = VERIF / "seeded"
+    if sd.is_dir():
+        for mp in sorted(sd.glob("*/meta.json")):
+            try:
+                meta = json.loads(mp.read_text())
+            except Exception:
+                continue
+            own = meta.get("property")
+            rules = (meta.get("detected_by", {}).get(own, {}) or {}).get("rules", [])
+            if meta.get("status") != "confirmed" or not rules or not (mp.parent / "patch.diff").exists():
+                continue
+            if prop is None or prop == own:
+                out.append(dict(id=f"seeded-{meta['seed_id']}", props=[own], expect=list(rules), patch=str(mp.parent / "patch.diff"), edits=[]))
     return out
 
 
 def _apply(src_dir: Path, m: dict) -> Optional[str]:
     """Apply the edits of a mutant. Returns None on success or a reason for skipping."""
+    if m.get("patch"):
+        import subprocess
+        root = src_dir.parent.parent  # <tmp>/src/nanoemoji -> <tmp>
+        r = subprocess.run(["patch", "-p1", "-s", "-f", "-d", str(root), "-i", m["patch"]], capture_output=True, text=True)
+        if r.returncode != 0:
+            return f"seeded patch does not apply to the tree under test: {(r.stdout + r.stderr).strip()[:120]}"
+        return None
     for e in m["edits"]:
         p = src_dir / e["file"]
         if not p.exists():
